@@ -290,6 +290,55 @@ func runC08(c *Ctx, idx int, o *Obs) {
 					}
 				}
 			}
+		} else {
+			// lengths partly or wholly absent: what an absent length counts for is not stated, but whatever it is,
+			// a tree compared with another presentation of itself has only shared splits with difference zero,
+			// and swapping the two trees negates the differences and swaps the two other lists
+			wrun := func(x, y string) (tree.WeightedBipartitionStats, bool) {
+				ch, err := tree.CompareWeighted(mustParse(x), chanOf(mustParse(y)), tips, false, 1)
+				if !o.Check(err == nil, "weighted_error", fmt.Sprint(err), inp) {
+					return tree.WeightedBipartitionStats{}, false
+				}
+				var recs []tree.WeightedBipartitionStats
+				for s := range ch {
+					recs = append(recs, s)
+				}
+				o.Ev("CompareWeighted_partial_lengths", 1)
+				if !o.Check(len(recs) == 1 && recs[0].Err == nil, "weighted_records", fmt.Sprintf("%d records", len(recs)), inp) {
+					return tree.WeightedBipartitionStats{}, false
+				}
+				return recs[0], true
+			}
+			if self, ok := wrun(a, ta.Newick()); ok {
+				zero := true
+				for _, v := range self.Common {
+					zero = zero && v == 0
+				}
+				o.Check(len(self.Tree1) == 0 && len(self.Tree2) == 0 && zero, "weighted_self",
+					fmt.Sprintf("tips=%v lengths %s: a tree against a re-rooted, rotated copy of itself: ref-only %v, comp-only %v, differences %v", tips, lens, self.Tree1, self.Tree2, self.Common),
+					a+" vs "+ta.Newick())
+			}
+			ab, ok1 := wrun(a, b)
+			ba, ok2 := wrun(b, a)
+			if ok1 && ok2 {
+				neg := make([]float64, len(ba.Common))
+				for i, v := range ba.Common {
+					neg[i] = 0 - v
+				}
+				for i, v := range neg { // -0 and 0 are the same difference
+					if v == 0 {
+						neg[i] = 0
+					}
+				}
+				abc := append([]float64{}, ab.Common...)
+				for i, v := range abc {
+					if v == 0 {
+						abc[i] = 0
+					}
+				}
+				o.Check(sameBits(sortedFloats(abc), sortedFloats(neg)) && sameBits(sortedFloats(ab.Tree1), sortedFloats(ba.Tree2)) && sameBits(sortedFloats(ab.Tree2), sortedFloats(ba.Tree1)),
+					"weighted_swap", fmt.Sprintf("tips=%v lengths %s: (ref-only %v, differences %v, comp-only %v) but swapped (ref-only %v, differences %v, comp-only %v)", tips, lens, ab.Tree1, ab.Common, ab.Tree2, ba.Tree1, ba.Common, ba.Tree2), inp)
+			}
 		}
 	}
 
